@@ -326,8 +326,8 @@ func H_C01_order() {
 	switch vxrt.Choice("order", 6) {
 	case 4: // an editor removed the blank lines between entries and the final newline
 		content = "[TestT - 1]\n\"one\"\n---\n[TestT - 2]\n\"two\"\n---"
-	case 5: // comments and blank lines a reviewer left between the entries
-		content = "# recorded 2024\n\n[TestT - 1]\n\"one\"\n---\n\n\n# second\n[TestT - 2]\n\"two\"\n---\n\n"
+	case 5: // more blank lines between the entries than the library writes itself
+		content = "\n\n\n[TestT - 1]\n\"one\"\n---\n\n\n\n[TestT - 2]\n\"two\"\n---\n\n"
 	case 3: // in call order, but with CRLF line endings (an autocrlf checkout)
 		content = "\r\n[TestT - 1]\r\n\"one\"\r\n---\r\n\r\n[TestT - 2]\r\n\"two\"\r\n---\r\n"
 	case 0:
